@@ -74,10 +74,17 @@ let process line =
   let ofields = List.map kv otoks in
   let oget k = try List.assoc k ofields with Not_found -> "" in
   let propfail = ref [] and diff = ref [] in
-  let pf s = propfail := s :: !propfail in
+  let scope = ref false in
+  let prefix = ref "" in
+  let pf s = if !scope then propfail := (!prefix ^ s) :: !propfail in
   let df s = diff := s :: !diff in
+  let labelled s =
+    List.exists (fun l -> String.length s >= String.length l && String.sub s 0 (String.length l) = l)
+      ["wildcard-mass"; "scale-zero"; "unscale-inexact"; "offset-i32"; "sf-last-entry-unclipped"] in
   let finish () =
-    match List.rev !propfail, List.rev !diff with
+    let pfs = List.rev !propfail in
+    let pfs = List.filter (fun s -> not (labelled s)) pfs @ List.filter labelled pfs in
+    match pfs, List.rev !diff with
     | p :: _, _ -> Printf.printf "%s PROPFAIL %s\n" id p
     | [], d :: _ -> Printf.printf "%s DIFF %s\n" id d
     | [], [] -> Printf.printf "%s OK\n" id in
@@ -98,6 +105,13 @@ let process line =
           List.length r = 5 &&
           List.for_all finite32 (List.filteri (fun i _ -> i < 4) r) &&
           (let w = List.nth r 4 in finite32 w || w = 0xFF800000L)) m_bits in
+    scope := in_scope;
+    (match q_stage_a (List.map (List.map (fun b -> f64_cell (f64_of_f32bits b))) m_bits) with
+     | Ok (off, _) ->
+         let lim = inject_Z (z_of_u64 0x7FFFFFFFL) in
+         let wo = qmult (inject_Z (z_of_int mrows)) (qabs off) in
+         if not (qle_bool wo lim) then prefix := "offset-i32 "
+     | _ -> ());
     if not (f64_ninf_agrees cells64) then df "model-selfcheck disc_ninf";
     lap "parse";
     let model = f64_build cells64 bg64 in
@@ -120,16 +134,18 @@ let process line =
          let _ = List.fold_left (fun i (b, c) -> Array.fill impl_sf_bits i c (canon64 b); i + c) 0 runs in
          (match int_of_nat (f64_chk_table impl_sf_vals) with
           | 0 -> ()
-          | 1 ->
-              (* name the offending entry *)
+          | code ->
+              (* name the offending entry (for the message only) *)
               let bad = ref (-1) in
               Array.iteri (fun i b -> if !bad < 0 then begin
-                  let v = Int64.float_of_bits b in if not (v >= 0.0 && v <= 1.0) then bad := i end) impl_sf_bits;
-              let last = (!bad = n_impl - 1) in
-              pf (Printf.sprintf "sf-range %s index=%d of %d value=%.17g"
-                    (if last then "last-entry-unclipped" else "entry") !bad n_impl
-                    (if !bad >= 0 then Int64.float_of_bits impl_sf_bits.(!bad) else nan))
-          | _ -> pf "sf-monotone table increases");
+                  let v = Int64.float_of_bits b in
+                  if not (v >= 0.0 && v <= 1.0) then bad := i
+                  else if i + 1 < n_impl && not (Int64.float_of_bits impl_sf_bits.(i + 1) <= v) then bad := i + 1 end) impl_sf_bits;
+              let v = if !bad >= 0 then Int64.float_of_bits impl_sf_bits.(!bad) else nan in
+              if !bad = n_impl - 1 && v > 1.0 then
+                pf (Printf.sprintf "sf-last-entry-unclipped sf[%d]=%.17g > 1 (last entry of %d)" !bad v n_impl)
+              else if code = 1 then pf (Printf.sprintf "sf-range sf[%d]=%.17g outside [0,1]" !bad v)
+              else pf (Printf.sprintf "sf-monotone sf[%d]=%.17g above its predecessor" !bad v));
          let model_sf = Array.of_list (List.map u64_of_f64 d.d_sf) in
          if Array.length model_sf <> n_impl then
            df (Printf.sprintf "sf length %d model %d" n_impl (Array.length model_sf))
@@ -222,7 +238,11 @@ let process line =
                       end
                   | _ -> ())
                end) probes;
-           if not (f64_chk_mono !mono) then pf "pvalue-monotone a larger score got a larger p-value"
+           if not (f64_chk_mono !mono) then begin
+             (* a p-value above 1 can only be the unclipped last table entry *)
+             let above1 = List.exists (fun (_, po) -> po <> "P" && Int64.float_of_bits (u64_of_string po) > 1.0) probes in
+             pf ((if above1 then "sf-last-entry-unclipped " else "") ^ "pvalue-monotone a larger score got a larger p-value")
+           end
          end;
          lap "probes";
          (* ---------- score probes and round trips ---------- *)
@@ -243,9 +263,22 @@ let process line =
              if in_scope && p_in01 then pf (Printf.sprintf "score-panic %s#%d p=%s" tag i (show_u64 pbits))
            end else if not (f64_chk_roundtrip p64 (f64_of_u64 (u64_of_string robs))) &&
                    not (chk_roundtrip_q eps !delta_ref (f64_to_Q p64) (f64_to_Q (f64_of_u64 (u64_of_string robs)))) then
-             pf (Printf.sprintf "roundtrip %s#%d p=%.17g score=%.9g pvalue(score(p))=%.17g > p" tag i
-                   (Int64.float_of_bits pbits) (Int32.float_of_bits (Int64.to_int32 (u64_of_string sobs)))
-                   (Int64.float_of_bits (u64_of_string robs)))
+             begin
+               let scale_zero = (match q_stage_a (List.map (List.map (fun b -> f64_cell (f64_of_f32bits b))) m_bits) with
+                   | Ok (_, sc) -> qle_bool sc { qnum = Z0; qden = XH } | _ -> false) in
+               let inexact = (match f64_bsearch d p64 with
+                   | Ok x -> not (f64_index_exact d (z_of_int (int_of_nat x))) | _ -> false) in
+               let wild_mass = (match List.nth_opt bg_bits 4 with Some b -> Int64.logand b 0x7FFFFFFFL <> 0L | None -> false) in
+               let wild_ninf = List.exists (fun r -> List.nth r 4 = 0xFF800000L) m_bits in
+               let rtv = Int64.float_of_bits (u64_of_string robs) in
+               let label =
+                 if scale_zero then "scale-zero roundtrip"
+                 else if inexact then "unscale-inexact roundtrip"
+                 else if wild_mass && wild_ninf && rtv = 1.0 then "wildcard-mass roundtrip"
+                 else "roundtrip" in
+               pf (Printf.sprintf "%s %s#%d p=%.17g score=%.9g pvalue(score(p))=%.17g > p" label tag i
+                     (Int64.float_of_bits pbits) (Int32.float_of_bits (Int64.to_int32 (u64_of_string sobs))) rtv)
+             end
          in
          let ps_bits = List.map u64_of_string (split ',' (get "ps")) in
          let sc_obs = split ',' (oget "sc") in
